@@ -32,6 +32,8 @@ def cases(seed, tier):
     rng = np.random.default_rng([seed, 19])
     for i in range(n):
         yield {"family": FAMS[i % 6], "sub": int(rng.integers(0, 2**31))}
+    for i in range(2 if tier == "quick" else 8):
+        yield {"family": "random_indices", "huge": True, "sub": int(rng.integers(0, 2**31))}
 
 
 def _o_randcap(call):
@@ -421,6 +423,12 @@ def run_case(case):
         unique = bool(rng.integers(0, 2))
         nrand = int(rng.integers(0 if imax > 1 else 1, imax + 1)) if unique else int(rng.choice([1, imax, 3 * imax]))
         kw = {"rng": _mk_rng("new", seed)} if rng.random() < .5 else {"seed": seed}
+        if case.get("huge"):
+            # ranges beyond 2^31 / 2^32 with millions of distinct indices asked for (a new-style generator: the legacy
+            # one permutes the whole range)
+            imax = int(rng.choice([2 ** 31 + 1, 2 ** 31 + 12345, 2 ** 32 + 7, 2 ** 33]))
+            unique, nrand = True, int(rng.integers(4 * 10 ** 6, 6 * 10 ** 6))
+            kw = {"rng": np.random.default_rng(seed)}
         r, e = probe.attempt(er.random_indices, imax, nrand, unique=unique, **kw)
         wit = {"imax": imax, "nrand": nrand, "unique": unique}
         if e is not None:
